@@ -1034,3 +1034,67 @@ mut("c01-reset-from-wrong-source", ["C01"], [(BM, '''	header, height, err := b.c
 		Header: back.Header,
 		Height: back.Height,
 	})''')], ["C01.O1"])
+
+# ---- C04 ----
+mut("c04-donepeer-no-startsync", ["C04"], [(BM, '''			Height: int32(height),
+		})
+		b.startSync(peers)
+	}
+}''', '''			Height: int32(height),
+		})
+	}
+}''')], ["C04.O1"])
+mut("c04-no-broadcast", ["C04"], [(BM, '''	b.newHeadersMtx.Unlock()
+	b.newHeadersSignal.Broadcast()
+}''', '''	b.newHeadersMtx.Unlock()
+}''')], ["C04.O1"])
+mut("c04-drop-inv-case", ["C04"], [(BM, '''			case *invMsg:
+				b.handleInvMsg(msg)
+
+''', '')], ["C04.T1"])
+mut("c04-no-getheaders-when-behind", ["C04"], [(BM, '''		err := hmsg.peer.PushGetHeadersMsg(locator, &nextHash)
+		if err != nil {
+			log.Warnf("Failed to send getheaders message to "+
+				"peer %s: %s", hmsg.peer.Addr(), err)
+			return
+		}''', '''		_, _ = locator, nextHash''')], ["C04.O1"])
+mut("c04-startsync-no-request", ["C04"], [(BM, '''		_ = b.SyncPeer().PushGetHeadersMsg(locator, stopHash)
+	} else {''', '''		_, _ = locator, stopHash
+	} else {''')], ["C04.O1"])
+mut("c04-newpeer-no-startsync", ["C04"], [(BM, '''	// Start syncing by choosing the best candidate if needed.
+	b.startSync(peers)
+}''', '''}''')], ["C04.O1"])
+mut("c04-listener-unregistered", ["C04"], [(N, '''			OnHeaders:   sp.OnHeaders,
+''', '')], ["C04.T1"])
+mut("c04-cfheaders-no-wakeup", ["C04"], [(BM, '''	b.newFilterHeadersMtx.Unlock()
+	b.newFilterHeadersSignal.Broadcast()
+''', '''	b.newFilterHeadersMtx.Unlock()
+''')], ["C04.O1"])
+mut("c04-addpeer-no-blockmanager", ["C04", "C13"], [(N, '''	// Signal the block manager this peer is a new sync candidate.
+	s.blockManager.NewPeer(sp)
+''', '')], ["C04.O1", "C13.G1"])
+mut("c04-broadcaster-before-submgr", ["C04"], [(N, '''	s.blockSubscriptionMgr.Start()
+	if err := s.workManager.Start(); err != nil {''', '''	if err := s.workManager.Start(); err != nil {'''), (N, '''	if s.persistToDisk {
+		s.filterBatchWriter.Start()
+	}
+''', '''	if s.persistToDisk {
+		s.filterBatchWriter.Start()
+	}
+	s.blockSubscriptionMgr.Start()
+''')], ["C04.O1"])
+mut("c04-tip-update-unlocked", ["C04"], [(BM, '''	b.newHeadersMtx.Lock()
+	b.headerTip = uint32(finalHeight)
+	b.headerTipHash = *finalHash
+	b.newHeadersMtx.Unlock()''', '''	b.headerTip = uint32(finalHeight)
+	b.headerTipHash = *finalHash''')], ["C04.O1"])
+mut("c04-new-unhandled-msg", ["C04"], [], ["C04.T1"], new_files=[("zz_msg.go", '''package neutrino
+
+type zzPingMsg struct{ peer *ServerPeer }
+
+func (b *blockManager) zzQueuePing(sp *ServerPeer) {
+	select {
+	case b.peerChan <- &zzPingMsg{peer: sp}:
+	case <-b.quit:
+	}
+}
+''')])
